@@ -56,14 +56,19 @@ class Output(OutputData, Model):
 
         raise NotImplementedError("v_code <%s> not recognized" % v_code)
 
-    def to_output_addr(self, item, check=False):
+    def to_output_addr(self, item, check=False, a=None):
         """
         Convert DAE-based variable address to relative output addresses.
+
+        The result follows the order of the devices of `item`: element `k` is the
+        output column of the `k`-th stored device. Devices that are not stored are left out.
 
         Parameters
         ----------
         check : bool, optional, False by default
             If True, check if the address fully or partially exists.
+        a : array-like of int, optional
+            Sub-indices into the devices of `item`
 
         Returns
         -------
@@ -71,18 +76,27 @@ class Output(OutputData, Model):
             An array containing the indices into the output matrix
         """
 
-        addr = item.a
+        addr = np.atleast_1d(item.a)
+        if a is not None:
+            addr = np.atleast_1d(np.take(addr, a))
         v_code = item.v_code
 
-        bool_intersect = self.in1d(addr, v_code)
-        output_addr = np.where(bool_intersect)[0]
+        if v_code == 'x':
+            stored = self.xidx
+        elif v_code == 'y':
+            stored = self.yidx
+        else:
+            raise NotImplementedError("v_code <%s> not recognized" % v_code)
+
+        column = {int(ad): col for col, ad in enumerate(stored)}
+        output_addr = np.array([column[int(ad)] for ad in addr if int(ad) in column], dtype=int)
 
         if check is True:
             if len(output_addr) == 0:
                 logger.info("<%s.%s> not found in <Output>, skipped.",
                             item.owner.class_name, item.name)
 
-            if len(output_addr) != len(item.a):
+            if len(output_addr) != len(addr):
                 logger.info("<%s.%s> is partially stored by <Output>. Showing all saved data.",
                             item.owner.class_name, item.name)
 
